@@ -242,9 +242,32 @@ class Replayer:
 
     def single(self, rec):
         rec = dict(rec)
+        prefix = rec.pop('_prefix', None)
+        if prefix:
+            # a history-dependent case: the earlier lines of its replayer process are executed first, in the same process
+            lines = [(k, json.dumps(dict(r, i=k))) for k, r in enumerate(prefix)]
+            rec['i'] = len(prefix)
+            lines.append((rec['i'], json.dumps(rec)))
+            vs = [v for v in _run_chunk(self.binary, lines, self.args(), self.env, self.tpl) if v.get('i') == rec['i']]
+            return vs[-1] if vs else {'i': rec['i'], 'v': 'crash', 'rc': None}
         rec['i'] = 0
         v = _run_chunk(self.binary, [(0, json.dumps(rec))], self.args(), self.env, self.tpl)
         return v[0] if v else {'i': 0, 'v': 'crash', 'rc': None}
+
+    def history_of(self, rec, recs):
+        """the lines that the replayer process of `rec` executed before it (its chunk up to rec), or None"""
+        i = rec.get('i')
+        if i is None or recs is None or i not in recs:
+            return None
+        start = (i // self.chunk) * self.chunk
+        if start == i:
+            return None
+        out = []
+        for k in range(start, i):
+            if k in recs:
+                r = dict(recs[k]); r.pop('i', None)
+                out.append(r)
+        return out
 
 
 # --------------------------------------------------------------------------- known findings
@@ -323,14 +346,26 @@ class Check:
                 return f
         return None
 
-    def disagreement(self, rec, verdict, replayer=None):
+    def disagreement(self, rec, verdict, replayer=None, recs=None):
         """a candidate violation: confirm by re-execution in a fresh process, then classify"""
         if replayer is not None and len(self.violations) < 8:
             v2 = replayer.single(rec)
             if v2.get('v') == 'ok':
-                log('candidate on line %s not reproduced on re-execution; ignored (flaky?)' % rec.get('i'))
-                self.extra['not_reproduced'] = self.extra.get('not_reproduced', 0) + 1
-                return
+                # not reproduced alone: the outcome may depend on what the same process executed before (state kept by the
+                # library across calls).  Re-execute the case after the same lines, twice; a repeatable disagreement is reported
+                # together with that history, anything else is ignored as not reproducible.
+                hist = replayer.history_of(rec, recs) if self.extra.get('history_rerun', 0) < 6 else None
+                if hist:
+                    self.extra['history_rerun'] = self.extra.get('history_rerun', 0) + 1
+                    r2 = dict(rec); r2['_prefix'] = hist
+                    v3, v4 = replayer.single(r2), replayer.single(r2)
+                    if v3.get('v') in ('mismatch', 'crash') and v4.get('v') == v3.get('v'):
+                        v3['history_dependent'] = 'passes when executed alone; fails after the %d earlier lines of its replayer process' % len(hist)
+                        rec, verdict, v2 = r2, v3, v3
+                if v2.get('v') == 'ok':
+                    log('candidate on line %s not reproduced on re-execution; ignored (flaky?)' % rec.get('i'))
+                    self.extra['not_reproduced'] = self.extra.get('not_reproduced', 0) + 1
+                    return
             verdict = v2
         f = self.match_known(rec, verdict)
         if f is not None:
@@ -359,7 +394,7 @@ class Check:
                 self.unjudgeable += 1
             elif kind in ('mismatch', 'crash'):
                 self.judged(rec, n=v.get('n', 1))
-                self.disagreement(rec, v, replayer)
+                self.disagreement(rec, v, replayer, recs)
             else:
                 raise MachineryError('replayer verdict %r on line %s' % (v, json.dumps(rec)[:500]))
 
